@@ -481,21 +481,37 @@ pub fn run_batch<E: Engine>(engine: &E, cfg: &BatchCfg) -> BatchReport {
     }
     for (sig, f) in by_sig.iter().take(12) {
         let (min_sc, min_out) = minimise(engine, &f.sc, sig, cfg.shrink_budget);
-        let v = min_out.violation.clone().unwrap();
-        let rf = ReplayFile {
+        // A scenario that violated during the batch but not when executed again in this process
+        // met state that earlier runs left behind in the code under test (a process-wide cache, a
+        // poisoned lock): it is reported as found, unminimised, and has to reproduce in a fresh
+        // process, where nothing is left behind.
+        let (min_sc, v, hash) = match min_out.violation.clone() {
+            Some(v) if v.signature == *sig => (min_sc, v, format!("{:016x}", min_out.trace_hash)),
+            _ => {
+                println!("note: the run with signature {sig} did not show it again when executed once more in this process; reported unminimised, verified in a fresh process");
+                (f.sc.clone(), f.violation.clone(), String::new())
+            }
+        };
+        let mut rf = ReplayFile {
             property: engine.property().to_string(),
             engine: engine.engine_name().to_string(),
             seed: cfg.seed,
             run: f.run,
             signature: sig.clone(),
             detail: v.detail.clone(),
-            trace_hash: format!("{:016x}", min_out.trace_hash),
+            trace_hash: hash,
             scenario: serde_json::to_value(&min_sc).unwrap(),
         };
         let path = replay_dir.join(format!("{}-{:016x}.json", engine.property(), fnv_str(sig)));
         std::fs::write(&path, serde_json::to_string_pretty(&rf).unwrap()).unwrap_or_else(|e| harness_error(&format!("cannot write replay: {e}")));
-        // the minimised scenario must reproduce in a fresh process, exactly
-        verify_replay_in_fresh_process(&path, sig, &rf.trace_hash);
+        // the reported scenario must reproduce in a fresh process, exactly
+        let fresh_hash = verify_replay_in_fresh_process(&path, sig, &rf.trace_hash);
+        if rf.trace_hash.is_empty() {
+            rf.trace_hash = fresh_hash;
+            std::fs::write(&path, serde_json::to_string_pretty(&rf).unwrap()).unwrap_or_else(|e| harness_error(&format!("cannot write replay: {e}")));
+            // and a second fresh process has to agree with the first
+            verify_replay_in_fresh_process(&path, sig, &rf.trace_hash);
+        }
         println!("violation: signature={sig}");
         println!("  first at run {} of seed {}; {} run(s) with this signature", f.run, cfg.seed, sig_count[sig]);
         for l in v.detail.lines().take(40) {
@@ -600,7 +616,8 @@ pub fn minimise<E: Engine>(engine: &E, sc: &E::Sc, sig: &str, budget: usize) -> 
     (cur, cur_out)
 }
 
-fn verify_replay_in_fresh_process(path: &Path, sig: &str, hash: &str) {
+/// returns the trace hash the fresh process printed; an empty `hash` means "not known yet"
+fn verify_replay_in_fresh_process(path: &Path, sig: &str, hash: &str) -> String {
     let exe = std::env::current_exe().unwrap_or_else(|e| harness_error(&format!("current_exe: {e}")));
     let out = std::process::Command::new(exe)
         .arg("replay")
@@ -611,7 +628,8 @@ fn verify_replay_in_fresh_process(path: &Path, sig: &str, hash: &str) {
     let so = String::from_utf8_lossy(&out.stdout);
     let want_sig = format!("replayed signature={sig}");
     let want_hash = format!("trace_hash={hash}");
-    if out.status.code() != Some(1) || !so.contains(&want_sig) || !so.contains(&want_hash) {
+    let got_hash = so.lines().find_map(|l| l.strip_prefix("trace_hash=")).unwrap_or("").to_string();
+    if out.status.code() != Some(1) || !so.contains(&want_sig) || (!hash.is_empty() && !so.contains(&want_hash)) {
         harness_error(&format!(
             "minimised scenario {} did not reproduce identically in a fresh process (exit {:?}); stdout:\n{}",
             path.display(),
@@ -619,6 +637,7 @@ fn verify_replay_in_fresh_process(path: &Path, sig: &str, hash: &str) {
             so
         ));
     }
+    got_hash
 }
 
 /// `replay <file>` for one engine: re-executes exactly that scenario.
